@@ -56,7 +56,7 @@ func (r *rep) Metric(name string, n int64)      { r.w.Metric(name, n) }
 
 func body(w *hx.W) {
 	rng := w.Rand("c09")
-	n := w.Pick(3000, 80000)
+	n := w.Pick(3000, 40000)
 	r := &rep{w: w}
 	for i := 0; i < n; i++ {
 		seed := rng.Int63()
@@ -78,7 +78,7 @@ func body(w *hx.W) {
 	// concurrent histories: the per-connection wire invariants hold under any interleaving, and so
 	// does the view after a NOOP issued once everybody has stopped
 	crng := w.Rand("c08-concurrent")
-	nc := w.Pick(120, 3000)
+	nc := w.Pick(120, 1500)
 	for i := 0; i < nc; i++ {
 		seed := crng.Int63()
 		sessions := 2 + crng.Intn(7)
